@@ -477,3 +477,108 @@ def b_score_of(self, ex, st, node):
 Lib.b_stream_seq = b_stream_seq
 Lib.b_keys = b_keys
 Lib.b_score_of = b_score_of
+
+
+# ------------------------------------------------------------------------------------------------------------
+# dict.keys() membership, and opaque finite sets of strings (C16): card / the single element / a joined string
+@method("dict", "keys", stmt="")
+def _dict_keys(ex, st, base, node, basenode):
+    return SV(TPy("dictkeys"), py=base)
+
+
+_orig_contains = _engine.Exec.contains
+
+
+def _contains(self, st, container, item):
+    if isinstance(container.t, TPy) and container.t.what == "dictkeys":
+        d = container.py
+        return z3.Select(d.t.has(d.z), self.coerce(item, d.t.k).z)
+    return _orig_contains(self, st, container, item)
+
+
+_engine.Exec.contains = _contains
+
+STRSET = TAbs("StrSet")
+_orig_len_value2 = Lib.len_value
+
+
+def _len_value2(self, ex, st, v, node):
+    if v.t == STRSET:
+        c = ex.uf("strset_card", STRSET.sort(), z3.IntSort())(v.z)
+        return SV(INT, c)
+    return _orig_len_value2(self, ex, st, v, node)
+
+
+Lib.len_value = _len_value2
+
+_orig_iter = Lib.b_iter
+_orig_next2 = Lib.b_next
+
+
+def _b_next2(self, ex, st, node):
+    a = node.args[0]
+    # next(iter(s)) on an opaque set: SOME element of it (the element when it has exactly one)
+    if isinstance(a, ast.Call) and isinstance(a.func, ast.Name) and a.func.id == "iter":
+        inner = ex.ev(st, a.args[0])
+        if inner.t == STRSET:
+            ex.used_lib.add("next(iter(s)) on a set: some element of s (its only element when len(s) == 1)")
+            return SV(STR, ex.uf("strset_any", STRSET.sort(), STR.sort())(inner.z))
+        raise Unsupported("next(iter(%s))" % inner.t)
+    return _orig_next2(self, ex, st, node)
+
+
+Lib.b_next = _b_next2
+
+
+def b_card(self, ex, st, node):
+    v = ex.ev(st, node.args[0])
+    return SV(INT, ex.uf("strset_card", STRSET.sort(), z3.IntSort())(v.z))
+
+
+def b_any_of(self, ex, st, node):
+    v = ex.ev(st, node.args[0])
+    return SV(STR, ex.uf("strset_any", STRSET.sort(), STR.sort())(v.z))
+
+
+def b_joined(self, ex, st, node):
+    sep, v = ex.ev(st, node.args[0]), ex.ev(st, node.args[1])
+    return SV(STR, ex.uf("strset_join", STR.sort(), STRSET.sort(), STR.sort())(sep.z, v.z))
+
+
+def b_key_pos(self, ex, st, node):
+    """spec: key_pos(d, k) = position of key k in the (insertion-ordered) key sequence of d"""
+    d, k = ex.ev(st, node.args[0]), ex.ev(st, node.args[1])
+    pos = ex.uf("dpos_" + d.t.key(), d.t.sort(), d.t.k.sort(), z3.IntSort())
+    return SV(INT, pos(d.z, ex.coerce(k, d.t.k).z))
+
+
+Lib.b_card = b_card
+Lib.b_any_of = b_any_of
+Lib.b_joined = b_joined
+Lib.b_key_pos = b_key_pos
+
+from . import libstr as _libstr  # noqa: E402,F401  (registers the str methods first)
+from .lib import METHODS as _METHODS  # noqa: E402
+
+_orig_m_join = _METHODS[("str", "join")][0]
+
+
+def _m_join2(ex, st, base, node, basenode):
+    parts = ex.ev(st, node.args[0])
+    if parts.t == STRSET:
+        ex.used_lib.add("sep.join(set of strings): the members joined in the set's iteration order (reads the hash "
+                        "seed: an uninterpreted function of the set)")
+        return SV(STR, ex.uf("strset_join", STR.sort(), STRSET.sort(), STR.sort())(base.z, parts.z))
+    # re-dispatch on the original implementation without evaluating the argument twice
+    return _join_evaluated(ex, st, base, parts)
+
+
+def _join_evaluated(ex, st, base, parts):
+    r = _libstr.do_join(ex, st, base, parts)
+    for name, v in list(st.env.items()):
+        if v.t == STR and name.startswith("sep"):
+            _libstr.join_no_other_sep(ex, st, base, parts, v)
+    return r
+
+
+_METHODS[("str", "join")] = (_m_join2, "")
